@@ -1,5 +1,6 @@
 import Rbp.Proofs.ScriptMachine
 import Rbp.Proofs.ScriptMachineBtc
+import Rbp.Proofs.RunSpec
 /-!
 # C14 — no script or witness content can abort a run or disturb other rows
 Totality is stated on the panic-site models: every Rust site that can panic is an explicit `.panic` outcome there.
@@ -36,6 +37,52 @@ theorem evalBtc_total (testnet : Bool) (s : Bytes) : SMB.evalBtcM testnet s = .o
     multisig has at least 3 bytes, so `len - 2` cannot underflow -/
 theorem bare_multisig_safe (s : Bytes) : SMB.isBareMultisigM s = .ok (isBareMultisig s) ∧ (isMultisigLib s = true → 3 ≤ s.length) :=
   ⟨SMB.isBareMultisigM_eq s, SMB.multisig_len s⟩
+
+/-- **whole run: whatever the scripts and witness items contain, the run completes.**  For every directory whose index loads
+    and in which every height of the range stores a well-formed block — and well-formedness constrains only the *lengths* of
+    scriptPubKeys, scriptSigs and witness items, never their bytes (`content_free`) — every callback exits 0 and delivers the
+    whole range, provided the callback's own u64 sums stay in range (`Run.callbackPanics`: value sums, never script content) -/
+theorem any_content_completes (o : Run.Opts) (key : Option W.Bytes) (kvs : List (W.Bytes × W.Bytes)) (files : List Run.BlkFile)
+    (coin : Run.Coin) (ld : Run.Loaded) (hcoin : Run.coinOf o.coin = some coin) (hld : Run.loadIndex o kvs = .ok ld)
+    (hkey : key ≠ some []) (sz : Nat → Nat) (blk : Nat → W.Block)
+    (hs : ∀ k, o.start ≤ k → k < o.start + (ld.maxH + 1 - o.start) →
+      Run.Stored coin key (files.filterMap fun f => (Run.parseBlkIndex f.name).map fun n => (n, f)) ld.trimmed k (sz k) (blk k) ∧
+      (o.verify = true → Run.verifyBlock coin ld.trimmed (blk k).toR k = .ok ()))
+    (hne : o.start ≤ ld.maxH)
+    (hnp : Run.callbackPanics o coin.version
+      ((List.range' o.start (ld.maxH + 1 - o.start)).map (fun k => (⟨k, sz k, (blk k).toR⟩ : CB.EBlock))) = false) :
+    (Run.run o key kvs files).exit = 0 ∧ (Run.run o key kvs files).delivered = List.range' o.start (ld.maxH + 1 - o.start) :=
+  ⟨(Run.run_stored o key kvs files coin ld hcoin hld hkey sz blk hs hne hnp).1,
+   (Run.run_stored o key kvs files coin ld hcoin hld hkey sz blk hs hne hnp).2.1⟩
+
+/-- csvdump, unspentcsvdump and opreturn have no such sums: they never panic on delivered values -/
+theorem no_callback_panic (o : Run.Opts) (ver : UInt8) (bs : List CB.EBlock)
+    (h : o.callback = "csvdump" ∨ o.callback = "unspentcsvdump" ∨ o.callback = "opreturn") :
+    Run.callbackPanics o ver bs = false := by
+  rcases h with h | h | h <;> simp [Run.callbackPanics, h]
+
+/-- the framing never looks inside the three fields: replacing the bytes of a scriptPubKey, a scriptSig or a witness item by
+    any bytes of the same length keeps the enclosing structure well-formed (so the round-trip and whole-run theorems apply
+    to the result), and witness items are not even part of the parsed transaction -/
+theorem content_free :
+    (∀ (o : W.TxOut) (s' : W.Bytes), s'.length = o.script.length → o.ok → ({ o with script := s' } : W.TxOut).ok) ∧
+    (∀ (i : W.TxIn) (s' : W.Bytes), s'.length = i.script.length → i.ok → ({ i with script := s' } : W.TxIn).ok) ∧
+    (∀ (w : W.WitItem) (d' : W.Bytes), d'.length = w.data.length → w.ok → ({ w with data := d' } : W.WitItem).ok) ∧
+    (∀ (t : W.Tx) (sw : Option W.Segwit), ({ t with segwit := sw } : W.Tx).toR = t.toR) :=
+  ⟨Run.TxOut.ok_content_free, Run.TxIn.ok_content_free, Run.WitItem.ok_content_free, Run.witness_invisible⟩
+
+/-- rows not derived from the field are what they are without it: within a transaction every tx_in row is a function of
+    (txid, that input) and every tx_out row of (txid, index, that output); across transactions, replacing one transaction of
+    a block leaves the rows of all the others untouched -/
+theorem rows_noninterference (ver : UInt8) (bh : String) (t : W.Tx) (b : W.Block) (i : Nat) (t' : W.Tx) :
+    (Run.txRowsA ver bh t).2.1 = t.ins.map (fun i =>
+      s!"{Csv.hashHex (A.sha256d t.encStripped)};{Csv.hashHex i.prev};{i.idx};{Sha.hex i.script};{i.seq}") ∧
+    (Run.txRowsA ver bh t).2.2 = ((List.range t.outs.length).zip t.outs).map (fun (k, o) =>
+      s!"{Csv.hashHex (A.sha256d t.encStripped)};{k};{o.value};{Sha.hex o.script};{((S.eval ver o.script).address).getD ""}") ∧
+    ({ b with txs := b.txs.set i t' } : W.Block).txs.map (Run.txRowsA ver (Csv.hashHex (A.sha256d b.header.enc))) =
+      (b.txs.map (Run.txRowsA ver (Csv.hashHex (A.sha256d b.header.enc)))).set i
+        (Run.txRowsA ver (Csv.hashHex (A.sha256d b.header.enc)) t') :=
+  ⟨Run.txRowsA_ins ver bh t, Run.txRowsA_outs ver bh t, Run.other_txs_untouched ver b i t'⟩
 
 /-- non-vacuity: the panic outcome of the counter model is reachable without the guard (the 256th push) -/
 example : SMB.keysM [some (Ins.push [])] 255 = .panic := by decide
